@@ -66,10 +66,16 @@ mod harness {
     /// std.findSubstr(pat, str): exactly the CODE-POINT indices at which pat occurs, ascending, overlaps included; never slices off a boundary
     #[kani::proof]
     #[kani::unwind(14)]
-    fn h_find_substr() {
+    fn h_find_substr() { check_find_substr(false); }
+    #[kani::proof]
+    #[kani::unwind(14)]
+    fn h_find_substr_p2() { check_find_substr(true); }
+    /// split by pattern length (0-1 characters / exactly 2) to keep each query small
+    fn check_find_substr(two: bool) {
         const A: [&str; 3] = ["a", "é", "😀"];
         let (hay, _) = build(0, &A, 3);
-        let (pat, _) = build(1, &A, 2);
+        let (pat, pn) = build(1, &A, 2);
+        kani::assume((pn == 2) == two);
         let r = builtin_find_substr(IStr(pat), IStr(hay));
         let (hb, pb) = (hay.as_bytes(), pat.as_bytes());
         let mut want = [0u32; 8]; let mut wn = 0; let mut cp = 0u32; let mut p = 0;
@@ -85,7 +91,7 @@ mod harness {
         }
         assert!(r.n == wn, "obligation: findSubstr reports every occurrence and nothing else");
         let mut i = 0; while i < wn { assert!(r.items[i] == want[i], "obligation: findSubstr positions are code-point indices, ascending"); i += 1; }
-        kani::cover!(wn == 2 && want[1] == 2);
+        kani::cover!(if two { wn == 2 } else { wn == 2 && want[1] == 2 });
         kani::cover!(wn == 1 && want[0] == 1 && hb.len() > 3);
     }
 
